@@ -77,6 +77,10 @@ theorem q18_checkInfos (a : A) (evs : List Ev) : Q18 a (checkInfos a evs) := by
   unfold checkInfos
   q18
 
+theorem q18_checkNoticeOrigin (cfg : Cfg) (a : A) (rd : Option Read) (evs : List Ev) : Q18 a (checkNoticeOrigin cfg a rd evs) := by
+  unfold checkNoticeOrigin
+  q18
+
 /-! ## state updates of the Spec in explicit form -/
 
 def depOne (ms : List AMod) (v : Nat) : List AMod :=
@@ -418,12 +422,12 @@ def goCore (cfg : Cfg) : A → List Read → List (Nat × List Ev) → A
     | none => goCore cfg a rest segs
 
 theorem q18_go (cfg : Cfg) : ∀ (reads : List Read) (a b : A) (segs : List (Nat × List Ev)) (fuel : Nat),
-    Q18 a b → reads.length < fuel → Q18 (goCore cfg a reads segs) (round.go cfg b reads segs fuel)
+    Q18 a b → reads.length < fuel → Q18 (goCore cfg a reads segs) (roundBody.go cfg b reads segs fuel)
   | [], a, b, segs, fuel, h, hf => by
     cases fuel with
     | zero => cases hf
     | succ n =>
-      unfold goCore round.go
+      unfold goCore roundBody.go
       cases segs with
       | nil => exact h
       | cons sg rest => exact h.trans (q18_err _ _ _ rfl)
@@ -433,7 +437,7 @@ theorem q18_go (cfg : Cfg) : ∀ (reads : List Read) (a b : A) (segs : List (Nat
     | succ n =>
       have hf' : rest.length < n := by simp at hf; omega
       have hget : b.get rd.uid = a.get rd.uid := by unfold A.get; rw [q18_mods h]
-      unfold goCore round.go
+      unfold goCore roundBody.go
       rw [hget]
       cases hm : a.get rd.uid with
       | none => exact q18_go cfg rest a b segs n h hf'
@@ -451,10 +455,12 @@ theorem q18_go (cfg : Cfg) : ∀ (reads : List Read) (a b : A) (segs : List (Nat
             split
             · exact h.trans (q18_err _ _ _ rfl)
             · refine q18_go cfg rest _ _ segs' n ?_ hf'
-              have hmb : b.get rd.uid = some m := by rw [hget]; exact hm
-              have h1 := q18_segment cfg b rd evs m hmb hal
+              have hq := q18_checkNoticeOrigin cfg b (some rd) evs
+              have hmb : (checkNoticeOrigin cfg b (some rd) evs).get rd.uid = some m := by
+                unfold A.get; rw [q18_mods hq]; unfold A.get at hget; rw [hget]; exact hm
+              have h1 := q18_segment cfg (checkNoticeOrigin cfg b (some rd) evs) rd evs m hmb hal
               rw [segCore_eq] at h1
-              exact (q18_dep (q18_segX h cfg rd m (acksOf evs)) evs).trans h1
+              exact (q18_dep (q18_segX (h.trans hq) cfg rd m (acksOf evs)) evs).trans h1
 
 /-! ### the tally of manager-originated frames -/
 
@@ -507,23 +513,33 @@ def roundReads (a : A) (r : Round) : List Read :=
   r.reads.filter (fun rd => ((a.mods.filter (·.alive)).map (·.uid)).contains rd.uid)
 
 /-- `Spec.round` up to (not including) the periodic section -/
-def roundPre (cfg : Cfg) (a : A) (r : Round) (evs : List Ev) : A :=
-  let a3 := roundEnv a r
-  let reads := roundReads a r
-  let pre := (splitRd evs).1
-  let segs := (splitRd evs).2
-  let a := a3.chk ((closes pre).isEmpty || !(wfails pre).isEmpty) "C07" "a connection was closed before any frame was read in this round"
-  let a := applyDepartures (checkDepartures cfg a none pre) pre
-  let a := round.go cfg a reads segs (reads.length + segs.length + 1)
-  if segs.isEmpty then a else (pre :: (segs.dropLast.map (·.2))).foldl (noteMgrFrames cfg) a
+def roundPre (cfg : Cfg) (a : A) (r : Round) (evs : List Ev) : A := (roundBody cfg a r evs).1
 
 /-- the events the periodic section is looked for in: the last stretch of the round -/
 def lastEvs (evs : List Ev) : List Ev :=
   match (splitRd evs).2.getLast? with | some s => s.2 | none => (splitRd evs).1
 
+theorem roundBody_snd (cfg : Cfg) (a : A) (r : Round) (evs : List Ev) : (roundBody cfg a r evs).2 = lastEvs evs := by
+  unfold roundBody lastEvs
+  rcases splitRd evs with ⟨pre, segs⟩
+  rfl
+
 theorem round_eq (cfg : Cfg) (a : A) (r : Round) (evs : List Ev) :
     round cfg a r evs = tail cfg (roundPre cfg a r evs) (lastEvs evs) := by
-  unfold round roundPre lastEvs roundEnv roundReads
+  unfold round roundPre
+  rw [← roundBody_snd cfg a r evs]
+
+theorem roundPre_eq (cfg : Cfg) (a : A) (r : Round) (evs : List Ev) :
+    roundPre cfg a r evs =
+      (let a3 := roundEnv a r
+       let reads := roundReads a r
+       let pre := (splitRd evs).1
+       let segs := (splitRd evs).2
+       let a := a3.chk ((closes pre).isEmpty || !(wfails pre).isEmpty) "C07" "a connection was closed before any frame was read in this round"
+       let a := applyDepartures (checkDepartures cfg (checkNoticeOrigin cfg a none pre) none pre) pre
+       let a := roundBody.go cfg a reads segs (reads.length + segs.length + 1)
+       if segs.isEmpty then a else (pre :: (segs.dropLast.map (·.2))).foldl (noteMgrFrames cfg) a) := by
+  unfold roundPre roundBody roundEnv roundReads
   rcases splitRd evs with ⟨pre, segs⟩
   rfl
 
@@ -535,12 +551,13 @@ def roundCore (cfg : Cfg) (a : A) (r : Round) (evs : List Ev) : A :=
   if segs.isEmpty then a else (pre :: (segs.dropLast.map (·.2))).foldl (noteMgrFrames cfg) a
 
 theorem q18_roundPre (cfg : Cfg) (a : A) (r : Round) (evs : List Ev) : Q18 (roundCore cfg a r evs) (roundPre cfg a r evs) := by
-  unfold roundCore roundPre
+  rw [roundPre_eq]
+  unfold roundCore
   dsimp only
   have h5 : Q18 (applyDepartures (roundEnv a r) (splitRd evs).1)
-      (applyDepartures (checkDepartures cfg ((roundEnv a r).chk ((closes (splitRd evs).1).isEmpty || !(wfails (splitRd evs).1).isEmpty) "C07"
-        "a connection was closed before any frame was read in this round") none (splitRd evs).1) (splitRd evs).1) :=
-    q18_dep (by q18s) _
+      (applyDepartures (checkDepartures cfg (checkNoticeOrigin cfg ((roundEnv a r).chk ((closes (splitRd evs).1).isEmpty || !(wfails (splitRd evs).1).isEmpty) "C07"
+        "a connection was closed before any frame was read in this round") none (splitRd evs).1) none (splitRd evs).1) (splitRd evs).1) :=
+    q18_dep (Q18.checkDepartures ((q18_chk _ _ _ _ rfl).trans (q18_checkNoticeOrigin _ _ _ _)) _ _ _) _
   have h6 := q18_go cfg (roundReads a r) _ _ (splitRd evs).2 ((roundReads a r).length + (splitRd evs).2.length + 1) h5 (by omega)
   split
   · exact h6
